@@ -4,7 +4,7 @@ HOOK_COMMITS = ["cf09ee52", "8fd24c77"]
 _WIP = "check not built yet in this session (planned, see DESIGN.md §5); not claimed until its harnesses run green"
 NOT_APPLICABLE = {
     "C06": _WIP, "C09": _WIP,
-    "C12": _WIP, "C17": _WIP,
+    
     "C07": "needs symbolic execution of clvmr::run_program (the legacy path is a CLVM program run by the interpreter); "
            "measured: parse_conditions with one concrete condition already exhausts 14 GB in CBMC; no bounded claim of value possible",
     "C08": "needs run_program, the back-reference serializer and intern_tree on symbolic bundles - same obstacle as C07; "
